@@ -153,8 +153,8 @@ class C05(Prop):
                    'dumped csv/json files are decoded with the stdlib only and compared by resource list, row count and provenance-id sequence (typed round-trip is C03)']
     REAL_VS_STUB = {'real': ['all dataflows code'], 'stub': ['printer: header_print/table_print callbacks and a recording wrapper around the module-global tabulate']}
     PROBES = ['suffix-deletes-resource', 'suffix-filters-rows', 'suffix-joins', 'suffix-concatenates', 'observer-first', 'observer-last', 'empty-resource-at-observer', 'printer-with-selection', 'second-dumper-downstream', 'suffix-stops-pulling-early'] + ['obs:' + o for o in OBS_KINDS]
-    TIERS = {'quick': dict(runs=900, wall=100, run_wall=120),
-             'thorough': dict(runs=25000, wall=1700, run_wall=300)}
+    TIERS = {'quick': dict(runs=900, wall=100, run_wall=300),
+             'thorough': dict(runs=25000, wall=1700, run_wall=600)}
     SHRINK_FROZEN = ('fields', 'gen_stats')
 
     def generate(self, rng, tier):
